@@ -15,12 +15,12 @@ import (
 const zzForeign = 1000 // identities >= zzForeign are not part of the canonical chain
 
 type zzSyncEnv struct {
-	K       int
-	chain   []*zh.Hdr // canonical chain, heights 1..K, identity = height
-	st      *zzSpecStore
-	g       *zzGetter
-	sub     *zzSub
-	s       *Syncer[*zh.Hdr]
+	K            int
+	chain        []*zh.Hdr // canonical chain, heights 1..K, identity = height
+	st           *zzSpecStore
+	g            *zzGetter
+	sub          *zzSub
+	s            *Syncer[*zh.Hdr]
 	getterErrs   int  // getter errors still to be injected
 	errSinceHead bool // a getter error happened after the last accepted head
 	rangeReqs    [][2]uint64
@@ -29,6 +29,7 @@ type zzSyncEnv struct {
 // zzNewSyncEnv starts a real Syncer over the specification store holding chain[:stored].
 func zzNewSyncEnv(ctx context.Context, K, stored, getterErrs int, gates bool) *zzSyncEnv {
 	env := &zzSyncEnv{K: K, getterErrs: getterErrs}
+	stale := zz.Param("STALE", 0) == 1 // the subjective head is never "recent": every Head() asks the network
 	now := time.Now()
 	t0 := now.Add(-time.Hour)
 	env.chain = make([]*zh.Hdr, K)
@@ -44,6 +45,8 @@ func zzNewSyncEnv(ctx context.Context, K, stored, getterErrs int, gates bool) *z
 		if !ok {
 			adjacent := u.H == t.H+1
 			switch {
+			case u.ID >= zzForeign+100 && adjacent && u.Prev == t.ID:
+				out = 0 // a fork links to its canonical parent
 			case u.ID >= zzForeign && adjacent:
 				out = 2
 			case u.ID >= zzForeign:
@@ -65,7 +68,7 @@ func zzNewSyncEnv(ctx context.Context, K, stored, getterErrs int, gates bool) *z
 	}
 	env.st = zzNewSpecStore()
 	env.st.Append(ctx, env.chain[:stored]...)
-	env.st.batches = nil
+	env.st.batches, env.st.aliases = nil, nil
 	env.g = &zzGetter{}
 	fail := func() bool {
 		if env.getterErrs > 0 && zz.Bool("getter.fail") {
@@ -109,9 +112,39 @@ func zzNewSyncEnv(ctx context.Context, K, stored, getterErrs int, gates bool) *z
 		}
 		return env.chain[from.H : int(from.H)+n], nil
 	}
+	// Head requests (only issued when the subjective head is stale): a contract-abiding Head getter returns
+	// a header that verifies against the trusted head, or a soft-failing one paired with its error
+	env.g.head = func(_ context.Context, opts ...header.HeadOption[*zh.Hdr]) (*zh.Hdr, error) {
+		if gates {
+			zz.Gate("getter:head")
+		}
+		if fail() {
+			return nil, zzErrGetter
+		}
+		var p header.HeadParams[*zh.Hdr]
+		for _, o := range opts {
+			o(&p)
+		}
+		h := env.chain[zz.Choice("nethead", K)]
+		if p.TrustedHead == nil {
+			return h, nil
+		}
+		verr := header.Verify(p.TrustedHead, h)
+		if verr == nil {
+			return h, nil
+		}
+		if ve, ok := verr.(*header.VerifyError); ok && ve.SoftFailure {
+			return h, verr
+		}
+		return nil, header.ErrNotFound
+	}
 	env.sub = &zzSub{}
+	recency := 1000 * time.Hour
+	if stale {
+		recency = time.Nanosecond
+	}
 	s, err := NewSyncer[*zh.Hdr](env.g, env.st, env.sub,
-		WithTrustingPeriod(1000*time.Hour), WithRecencyThreshold(1000*time.Hour), WithBlockTime(time.Second), WithSyncFromHeight(1))
+		WithTrustingPeriod(1000*time.Hour), WithRecencyThreshold(recency), WithBlockTime(time.Second), WithSyncFromHeight(1))
 	zz.Assert(err == nil, "NewSyncer succeeds")
 	env.s = s
 	zz.Assert(s.Start(ctx) == nil, "Start succeeds")
@@ -129,12 +162,22 @@ func (env *zzSyncEnv) deliver(ctx context.Context, h *zh.Hdr) error {
 
 // gossipHeader draws the next delivery: a canonical header of any height or a foreign one.
 func (env *zzSyncEnv) gossipHeader(n int) *zh.Hdr {
-	pick := zz.Choice("gossip.pick", env.K+3)
+	pick := zz.Choice("gossip.pick", env.K+4)
 	if pick < env.K {
 		return env.chain[pick]
 	}
+	if pick == env.K+3 {
+		// a fork: another header for an already stored height that links to the canonical parent, so it
+		// verifies against that parent. An up-to-date subjective head refuses it as known.
+		top := int(env.st.Height())
+		if top < 2 {
+			return env.chain[0] // nothing to fork yet: a stale delivery instead
+		}
+		hgt := 2 + zz.Choice("fork.height", top-1)
+		return &zh.Hdr{Chain: "c", H: uint64(hgt), T: env.chain[hgt-1].T, ID: zzForeign + 100 + n, Prev: hgt - 1}
+	}
 	now := time.Now()
-	hgt := uint64(1 + zz.Choice("gossip.height", env.K+2)) // 1..K+2: stale, known, next, skipping, beyond the tip
+	hgt := zz.U64("gossip.height") // any height at all: stale, known, next, skipping, far beyond the tip, 0, 2^64-1
 	f := &zh.Hdr{Chain: "c", H: hgt, T: now.Add(-30 * time.Minute), ID: zzForeign + n, Prev: zzForeign + 500 + n}
 	switch pick - env.K {
 	case 1:
@@ -163,11 +206,17 @@ func (env *zzSyncEnv) checkStore() {
 		zz.Assert(h.ID < zzForeign, "only headers of the verified chain are stored")
 		zz.Assert(h == env.chain[h.H-1], "a stored header is the verified header of its height")
 	}
-	for _, b := range env.st.batches {
+	for n, b := range env.st.batches {
 		for i := 1; i < len(b); i++ {
 			zz.Assert(b[i].H == b[i-1].H+1, "every batch handed to the Store is ascending by one")
 		}
+		// the real Store only queues the slice and reads it later from its writer goroutine
+		a := env.st.aliases[n]
+		for i := range b {
+			zz.Assert(a[i] == b[i], "a slice handed to Store.Append must not be modified afterwards")
+		}
 	}
+	zz.Assert(env.st.overwrites == 0, "a stored header is never replaced by another header of the same height")
 }
 
 // ZzC03: G gossip deliveries (any mix of valid, stale, skipping, forged headers) interleaved with the
@@ -180,6 +229,17 @@ func ZzC03() {
 	env := zzNewSyncEnv(ctx, K, stored, zz.Param("ERRS", 1), true)
 	for n := 0; n < G; n++ {
 		zz.Gate("main:deliver")
+		if zz.Param("STALE", 0) == 1 && zz.Bool("op.head") {
+			// a Head() call running concurrently with the deliveries and the sync loop
+			go func() {
+				h, err := env.s.Head(ctx)
+				if err == nil && h != nil {
+					zz.Assert(h.ID < zzForeign, "Head() never returns an unverified header")
+				}
+			}()
+			zz.Reach("head-call")
+			continue
+		}
 		h := env.gossipHeader(n)
 		sbjBefore, _ := env.s.localHead(ctx)
 		err := env.deliver(ctx, h)
@@ -190,14 +250,17 @@ func ZzC03() {
 		}
 		if err != nil {
 			zz.Reach("refused")
-			zz.Assert(!env.pendingHas(h), "a refused header must not become a sync target")
 			now, _ := env.s.localHead(ctx)
-			zz.Assert(now != h, "a refused header must not become the subjective head")
+			if h.ID >= zzForeign { // a canonical header may still be accepted through another verified path (Head(), getter)
+				zz.Assert(!env.pendingHas(h), "a refused header must not become a sync target")
+				zz.Assert(now != h, "a refused header must not become the subjective head")
+			}
 			if sbjBefore != nil && now != nil {
 				zz.Assert(now.H >= sbjBefore.H, "the subjective head never moves backwards")
 			}
-			_, stored := env.st.hdrs[h.H]
-			zz.Assert(!stored || env.st.hdrs[h.H] != h, "a refused header is never stored")
+			if h.ID >= zzForeign { // a canonical header may still arrive through a verified getter range
+				zz.Assert(env.st.hdrs[h.H] != h, "a refused header is never stored")
+			}
 		} else {
 			zz.Reach("accepted")
 		}
